@@ -11,12 +11,12 @@ CONSTANTS Methods,        \* request methods
           Kinds,          \* responder kinds of the generated application
           NOptions,       \* how many request-option settings
           Statuses,       \* statuses a "plain" responder may set
-          PlainShare,     \* 0: fixed responder scripts only; 1: "plain" responders (status x source x Content-Type) as well
+          PlainShare,     \* 0: fixed responder scripts only; 1: "plain" responders (status x body-source combination x Content-Type) as well
           NForwarding,    \* how many shapes of forwarding chains (relative to the peer address)
           UnderscoreNames \* wrong-design switch: offer a field name containing '_' (PEP 3333 folds it onto '-')
 
 VARIABLES r,      \* the request being composed
-          stage,  \* "start" | "responder" | "target" | "query" | "headers" | "body" | "endpoint" | "forwarding" | "send" | "sent"
+          stage,  \* "start" | "class" | "script" | "plain" | "target" | "query" | "headers" | "body" | "endpoint" | "forwarding" | "send" | "sent"
           app     \* the generated application the request is meant for: [opts, kind, resp]
 vars == <<r, stage, app>>
 
@@ -146,9 +146,10 @@ Start(m, ua, o) ==
     /\ stage = "start"
     /\ r' = [r EXCEPT !.method = m, !.headers = IF ua THEN <<UAField>> ELSE <<>>]
     /\ app' = [app EXCEPT !.opts = MCOptions[o]]
-    /\ stage' = "responder"
+    /\ stage' = "class"
+SetClass(c) == stage = "class" /\ stage' = c /\ UNCHANGED <<r, app>>       \* fixed script or plain responder
 SetResponder(k, p) ==
-    /\ stage = "responder"
+    /\ stage = (IF k = "plain" THEN "plain" ELSE "script")
     /\ app' = [app EXCEPT !.kind = k, !.resp = p]
     /\ stage' = "target" /\ UNCHANGED r
 SetTarget(t) == stage = "target" /\ r' = [r EXCEPT !.target = t] /\ stage' = "query" /\ UNCHANGED app
@@ -182,10 +183,11 @@ SetForwarding(f) ==
     /\ stage' = "send" /\ UNCHANGED app
 Send == stage = "send" /\ stage' = "sent" /\ UNCHANGED <<r, app>>
 
-PlainParams  == [status : Statuses, source : PlainSources, ctype : BOOLEAN]
+PlainParams  == [status : Statuses, text : Tri, data : Tri, media : Tri, stream : BOOLEAN, ctype : BOOLEAN]
+XSetClass    == \E c \in {"script"} \cup (IF PlainShare > 0 THEN {"plain"} ELSE {}) : SetClass(c)
 XStart       == \E m \in Methods, u \in 1..4, o \in 1..NOptions : Start(m, u > 1, o)            \* 3 in 4 carry a User-Agent
 XSetResponder == \/ \E k \in Kinds : SetResponder(k, NoPlain)
-                 \/ \E w \in 1..PlainShare, p \in PlainParams : SetResponder("plain", p)
+                 \/ \E p \in PlainParams : SetResponder("plain", p)
 XSetTarget   == \E i \in 1..NTargets : SetTarget(MCTargets[i])
 XSetQuery    == \E i \in 1..NQueries : SetQuery(MCQueries[i])
 XAddHeader   == \E h \in Pool : AddHeader(h)
@@ -194,7 +196,7 @@ XSetBody     == \E i \in 1..NBodies : SetBody(MCBodies[i])
 XSetEndpoint == \E i \in 1..NEndpoints : SetEndpoint(MCEndpoints[i])
 XSetForwarding == \E i \in 1..NForwarding : SetForwarding(MCForwarding[i])
 XSend        == Send
-Next == XStart \/ XSetResponder \/ XSetTarget \/ XSetQuery \/ XAddHeader \/ XEndHeaders \/ XSetBody \/ XSetEndpoint \/ XSetForwarding \/ XSend
+Next == XStart \/ XSetClass \/ XSetResponder \/ XSetTarget \/ XSetQuery \/ XAddHeader \/ XEndHeaders \/ XSetBody \/ XSetEndpoint \/ XSetForwarding \/ XSend
 Spec == Init /\ [][Next]_vars
 
 Sent == stage = "sent"
